@@ -75,15 +75,20 @@ struct H {
         if (adj && h) {
             uint64_t no = dec_off(r.at(6)), nl = dec_len(r.at(7));
             bool neigh = has_neighbour(id, no, nl);
+            // The library changes the range somewhere inside the call while other vCPUs keep running: during the
+            // call only the intersection of the old and the new range is certainly held.
+            uint64_t io = std::max(off, no), ie = std::min(endof(off, len), endof(no, nl));
+            release_record(id);
+            if (ie > io) held.push_back({id, io, ie - io});
             int ret = rl.adjust_range(h, no, nl);
             if (getenv("C18_DEBUG")) fprintf(stderr, "[c18] actor%d adjust -> [%lu,+%lu) ret=%d\n", id, no, nl, ret);
+            release_record(id);
             if (ret == 0) {
-                release_record(id);
                 acquire_record(id, no, nl, "adjust_range");
                 off = no; len = nl;
                 labels.insert("adjust_ok");
                 if (neigh) { nt = true; labels.insert("adjust_with_neighbour"); }
-            } else labels.insert("adjust_refused");
+            } else { acquire_record(id, off, len, "adjust_range(refused: keeps the old range)"); labels.insert("adjust_refused"); }
             if (body == 1) photon::thread_yield();
         }
         // still exclusive?
@@ -154,5 +159,6 @@ int main(int argc, char** argv) {
     h.run = run_case;
     h.desc = [](const Case& c) { return describe_common(c, opname); };
     h.fork_per_case = true;
+    h.persistent_child = true;     // a child serves cases until one ends abnormally (finish_now), then it is replaced
     return vf::pbt_main(argc, argv, h);
 }
